@@ -6,7 +6,7 @@ CONSTANTS
   Dev_h34 = FALSE
   Dev_h35 = FALSE
   Emit = TRUE
-  KnownClasses = {"grammar.sep.bf", "grammar.sep.hdr", "grammar.hex-ws", "grammar.ff-nul", "grammar.empty-section", "grammar.hdr-key", "font.enc.base", "font.enc.cmapname"}
+  KnownClasses = {}
   Rich = FALSE
   SingleRangeStr = TRUE
   Styles <- FontOnly
